@@ -15,6 +15,11 @@ func main() {
 	switch e.Prop {
 	case "C12":
 		(&c12{e: e, r: r}).run()
+	case "C01":
+		// statement C01 for EPIC-path packets only (the SCION-path part is engine router's)
+		c := &c13{e: e, r: r}
+		e.Rule = "EPIC-path packets whose current hop field (or next-segment first hop at a cross-over) has a valid MAC but is expired, on a fresh packet processor and on one whose last SCION-path packet predates the expiry; each compared with the same packet carrying a plain SCION path"
+		c.expiredHops("C01")
 	case "C13":
 		(&c13{e: e, r: r}).run()
 	case "C15":
